@@ -3,7 +3,9 @@
 # every one must be reported as a VIOLATION. /repo is restored after each.
 cd "$(dirname "$0")"
 while read c props; do
-  git -C /repo show $c -- . ':!*verif_hooks.go' | git -C /repo apply -R || { echo "$c: cannot reverse-apply"; continue; }
+  # a fix whose lines were touched again by a later fix is re-introduced by a hand-made patch refix/<commit>.reintroduce.diff
+  if [ -f refix/$c.reintroduce.diff ]; then git -C /repo apply "$PWD/refix/$c.reintroduce.diff" || { echo "$c: re-introduction patch does not apply"; continue; }
+  else git -C /repo show $c -- . ':!*verif_hooks.go' | git -C /repo apply -R || { echo "$c: cannot reverse-apply"; continue; }; fi
   for p in $props; do
     out=$(./check $p 2>&1 | grep -E "^VIOLATION|-> " | tail -2 | tr '\n' ' ' | cut -c1-260)
     echo "$c $p: $out"
